@@ -18,6 +18,10 @@ type Tok struct {
 	AOff   int
 	AAlt   int
 	Depth  int // nesting depth of open body-carrying constructs at this token
+	// BodyOpen marks the closing delimiter of a tag that opens a body,
+	// BodyClose the closing delimiter of the matching end tag.
+	BodyOpen  bool
+	BodyClose bool
 }
 
 // Pos is a source position: 1-based line, 0-based byte column.
@@ -26,9 +30,10 @@ type Pos struct {
 }
 
 type printer struct {
-	toks  []Tok
-	in    bool
-	depth int
+	toks   []Tok
+	in     bool
+	inElse bool
+	depth  int
 	// fullParen: parenthesise every non-atomic operand (default). When false
 	// the printer emits only the parentheses required by the operator table
 	// (used by nothing yet; C04 has its own printer).
@@ -73,6 +78,12 @@ func (p *printer) simpleTag(name string) {
 	p.open("{%", false)
 	p.tok(name, "word", " ", "")
 	p.close("%}", false)
+	if strings.HasPrefix(name, "end") && name != "endverbatim" {
+		p.toks[len(p.toks)-1].BodyClose = true
+	}
+	if name == "else" {
+		p.inElse = true
+	}
 }
 
 func atomic(e *E) bool {
@@ -187,11 +198,11 @@ func (p *printer) expr(e *E, sp string) {
 			k := e.KS[i]
 			switch k.K {
 			case "name":
-				p.tok(k.S, "word", s, "")
+				p.tok(k.S, "word", s, "Name")
 			case "num":
-				p.tok(numLit(k.N), "num", s, "")
+				p.tok(numLit(k.N), "num", s, "Number")
 			default:
-				p.str(k.S, k.Q, s, "")
+				p.str(k.S, k.Q, s, "String")
 			}
 			p.tok(":", "punct", "", "")
 			p.expr(a, " ")
@@ -203,7 +214,7 @@ func (p *printer) expr(e *E, sp string) {
 	case "attr":
 		p.operand(e.A[0], sp)
 		p.tok(".", "punct", "", "")
-		p.tok(e.S, "word", "", "")
+		p.tok(e.S, "word", "", "String")
 	case "idx":
 		p.operand(e.A[0], sp)
 		p.tok("[", "punct", "", "")
@@ -270,18 +281,18 @@ func (p *printer) expr(e *E, sp string) {
 	case "mcallx":
 		p.operand(e.A[0], sp)
 		p.tok(".", "punct", "", "")
-		p.tok(e.S, "word", "", "")
+		p.tok(e.S, "word", "", "String")
 		p.args(e.A[1:])
 	case "mcall":
 		switch e.T {
 		case "self":
-			p.tok("_self", "word", sp, "")
+			p.tok("_self", "word", sp, "Name")
 			p.tok(".", "punct", "", "")
-			p.tok(e.S, "word", "", "")
+			p.tok(e.S, "word", "", "String")
 		case "alias":
-			p.tok(e.U, "word", sp, "")
+			p.tok(e.U, "word", sp, "Name")
 			p.tok(".", "punct", "", "")
-			p.tok(e.S, "word", "", "")
+			p.tok(e.S, "word", "", "String")
 		default: // from-import: local name U
 			p.tok(e.U, "word", sp, "")
 		}
@@ -292,6 +303,10 @@ func (p *printer) expr(e *E, sp string) {
 }
 
 func (p *printer) body(ns []*N) {
+	if len(p.toks) > 0 && p.toks[len(p.toks)-1].Kind == "close" && !p.inElse {
+		p.toks[len(p.toks)-1].BodyOpen = true
+	}
+	p.inElse = false
 	p.depth++
 	for _, n := range ns {
 		p.node(n)
@@ -335,6 +350,7 @@ func (p *printer) node(n *N) {
 			p.tag("elseif", nil, "If")
 			p.expr(el.Cond, " ")
 			p.endTag(nil)
+			p.inElse = true
 			p.body(el.Body)
 		}
 		if n.HasElse {
@@ -420,9 +436,10 @@ func (p *printer) node(n *N) {
 		p.includeArgs(n)
 		p.endTag(n)
 	case "embed":
-		p.tag("embed", n, "Include")
+		p.tag("embed", n, "Embed")
 		p.includeArgs(n)
 		p.endTag(n)
+		p.toks[len(p.toks)-1].BodyOpen = true
 		p.depth++
 		for _, b := range n.Blocks {
 			p.node(b)
